@@ -367,17 +367,13 @@ class World(object):
         with self.lock:
             msg.index = len(self.messages)
             self.messages.append(msg)
-        res = msg.kwargs.get('result')
-        hold = False
-        if isinstance(res, dict):
-            # serialised Result
-            if vactions.HOLD in json.dumps(res, default=str):
-                hold = True
+        res = msg.raw.get('result')
+        hold = isinstance(res, ml_actions.Result) and res.data == vactions.HOLD
         self.rec.emit('RPC_SEND', mid=msg.mid, index=msg.index,
                       topic=msg.topic, method=msg.method, call=msg.call,
                       brief=msg.brief(), ids=_ids(msg), hold=hold)
         if hold:
-            self.withheld.add(msg.kwargs.get('action_ex_id'))
+            self.withheld.add(msg.raw.get('action_ex_id'))
             self.dropped.append(msg)
             return None
         if self.msg_filter is not None:
@@ -481,11 +477,16 @@ class World(object):
             s = self.scheduler
             while s._heap and s._heap[0][0] <= now:
                 _, _, job = heapq.heappop(s._heap)
+                try:
+                    label = 'job:%s:%s' % (job.func_name.split('.')[-1],
+                                           (job.key or '')[-8:])
+                except Exception:
+                    # the in-memory job object was expired by the scheduling
+                    # transaction: the real scheduler thread has to cope
+                    label = 'job:<expired>'
                 self.coop.spawn(
-                    'job', 'job:%s:%s' % (job.func_name.split('.')[-1],
-                                          (job.key or '')[-8:]),
-                    lambda j=job: s._process_memory_job(j),
-                    meta={'integrity': INTEGRITY in job.func_name})
+                    'job', label, lambda j=job: s._process_memory_job(j),
+                    meta={})
         else:
             due = self._legacy_due(now)
             new_polls = len([u for u in self.coop.units
@@ -519,7 +520,11 @@ class World(object):
         times = []
         if self.sched_type == 'default':
             for t, _, job in self.scheduler._heap:
-                if include_integrity or INTEGRITY not in job.func_name:
+                try:
+                    integ = INTEGRITY in job.func_name
+                except Exception:
+                    integ = False
+                if include_integrity or not integ:
                     times.append(t)
         else:
             con = boot.raw_connection()
@@ -651,7 +656,7 @@ class World(object):
 
     def dropped_non_hold(self):
         return [m for m in self.dropped
-                if m.kwargs.get('action_ex_id') not in self.withheld]
+                if m.raw.get('action_ex_id') not in self.withheld]
 
     def has_withheld_below(self, wf_ex_id):
         """True if some action below this execution never got a result
@@ -711,8 +716,8 @@ def _ids(msg):
     d = {}
     for k in ('action_ex_id', 'task_ex_id', 'wf_ex_id', 'wf_action', 'state',
               'first_run', 'rerun', 'reset', 'wf_identifier'):
-        if k in msg.kwargs:
-            v = msg.kwargs[k]
+        if k in msg.raw:
+            v = msg.raw[k]
             if isinstance(v, (str, bool, int, type(None))):
                 d[k] = v
     return d
